@@ -120,3 +120,31 @@ def q_consumer(q, c, n, size, conn, timeout=None, joinable=False, delay=0.0):
             ev.append({'k': 'task_done', 'who': c, 'p': p, 'n': k, 't0': t0, 't1': _us(), 'to': 0})
     conn.send((ev, bad))
     conn.close()
+
+
+def mgr_child(conn_in, conn_out):
+    """holds a proxy received from the parent (pickled through a pipe, rebuilt here);
+    operates on it on request; drops it when told"""
+    proxy = conn_in.recv()
+    conn_out.send('have')
+    while True:
+        cmd = conn_in.recv()
+        if cmd == 'append':
+            proxy.append('from-child')
+            conn_out.send('ok')
+        elif cmd == 'drop':
+            # the last references in this process: our parameter and the Process object's args
+            import gc
+            del proxy
+            gc.collect()
+            conn_out.send('dropped')
+            break
+    conn_in.recv()          # stay alive until released
+
+
+def mgr_appender(lst, d, val, lock, n, who):
+    for k in range(n):
+        lst.append((who, k))
+        d[(who, k)] = k
+        with lock:
+            val.value = val.value + 1
